@@ -239,3 +239,28 @@ MUTANTS["C17"] = [
        "    def clone(self):\n        with BytesIO() as f:\n            self.write_to(f)\n            key = f.getvalue()\n            if key not in _CLONES:\n                f.seek(0)\n                _CLONES[key] = read_sunvox_file(f)\n            return _CLONES[key]"),
       ("rv/container.py", "class Container:", "_CLONES = {}\n\n\nclass Container:")]),
 ]
+
+MUTANTS["C06"] = [
+    ("revert fix F3 (legacy replay of a loaded Sampler)", [("revert", "6d5271c")]),
+    ("loaded pattern data is cached and the cache is written",
+     [("rv/readers/pattern.py", "        self.object.raw_data = self._raw_data\n        raise ReaderFinished()", "        self.object.raw_data = self._raw_data\n        self.object._loaded_raw = self._raw_data\n        raise ReaderFinished()"),
+      ("rv/pattern.py", "        yield b\"PDTA\", self.raw_data", "        yield b\"PDTA\", getattr(self, \"_loaded_raw\", None) or self.raw_data")]),
+    ("MetaModule writes the embedded project bytes captured at load",
+     [("rv/modules/metamodule.py", "        self.project = read_sunvox_file(BytesIO(chunk.chdt))", "        self.project = read_sunvox_file(BytesIO(chunk.chdt))\n        self._loaded_project_bytes = chunk.chdt"),
+      ("rv/modules/metamodule.py", "        yield b\"CHDT\", self.project.read()", "        yield b\"CHDT\", getattr(self, \"_loaded_project_bytes\", None) or self.project.read()")]),
+    ("options chunk of a loaded module is replayed from the loaded bytes",
+     [("rv/modules/module.py", "        bytemap = list(chunk.chdt)\n        while len(bytemap) < 64:", "        self._loaded_options = chunk.chdt\n        bytemap = list(chunk.chdt)\n        while len(bytemap) < 64:"),
+      ("rv/modules/module.py", "        yield b\"CHDT\", pack(\"B\" * bytes, *bytemap[:bytes])", "        yield b\"CHDT\", getattr(self, \"_loaded_options\", None) or pack(\"B\" * bytes, *bytemap[:bytes])")]),
+    ("VorbisPlayer writer prefers the data captured at load",
+     [("rv/modules/vorbisplayer.py", "            self.data = chunk.chdt", "            self.data = self._loaded = chunk.chdt"),
+      ("rv/modules/vorbisplayer.py", "        yield b\"CHDT\", self.data or b\"\"", "        yield b\"CHDT\", getattr(self, \"_loaded\", None) or self.data or b\"\"")]),
+    ("controllers loaded from CVALs are written from the loaded raw values",
+     [("rv/modules/module.py", "        self.controller_values[name] = value\n\n    def propagate_down", "        self.controller_values[name] = value\n        if name in (\"volume\", \"feedback\"):\n            self.__dict__.setdefault(\"_loaded_raw\", {})[name] = raw_value\n\n    def propagate_down"),
+      ("rv/modules/module.py", "        controller = self.controllers[name]\n        t = controller.instance_value_type(self)\n        value = getattr(self, name)", "        if name in self.__dict__.get(\"_loaded_raw\", {}):\n            return self._loaded_raw[name]\n        controller = self.controllers[name]\n        t = controller.instance_value_type(self)\n        value = getattr(self, name)")]),
+    ("midi_out_name of a loaded module is sticky (writer keeps the loaded name when the new one is shorter)",
+     [("rv/readers/module.py", "        self.object.midi_out_name = data.decode(ENCODING)", "        self.object.midi_out_name = data.decode(ENCODING)\n        self.object._loaded_midi_out_name = self.object.midi_out_name"),
+      ("rv/modules/module.py", "        if self.midi_out_name:\n            yield b\"SMIN\", self.midi_out_name.encode(ENCODING) + b\"\\0\"", "        _n = self.midi_out_name\n        _l = getattr(self, \"_loaded_midi_out_name\", None)\n        if _l and _n and len(_n) < len(_l):\n            _n = _l\n        if _n:\n            yield b\"SMIN\", _n.encode(ENCODING) + b\"\\0\"")]),
+    ("Sampler envelope edits are dropped when the envelope was loaded and has more than 4 points",
+     [("rv/modules/sampler.py", "            for x, y in self.points:\n                data += pack(\"<HH\", x, y - self.range[0])\n            yield b\"CHDT\", data", "            for x, y in (self._loaded_points if self.loaded and len(getattr(self, \"_loaded_points\", ())) > 4 else self.points):\n                data += pack(\"<HH\", x, y - self.range[0])\n            yield b\"CHDT\", data"),
+      ("rv/modules/sampler.py", "            self.loaded = True\n", "            self.loaded = True\n            self._loaded_points = list(points)\n")]),
+]
